@@ -99,3 +99,18 @@ func init() {
 		}
 	}
 }
+
+func init() {
+	extraDumps["e2"] = func(p *Prog) {
+		e := buildE2(p)
+		fmt.Println("problems:", e.problems)
+		for _, m := range []*cfsm{e.cont, e.host} {
+			fmt.Println("==", m.name, len(m.nodes), "nodes")
+			for i, l := range m.nodes {
+				for _, t := range m.trans[i] {
+					fmt.Printf("  %d[%s] --%s%s--> %d[%s]  %s\n", i, l, t.kind, t.msg, t.to, m.nodes[t.to], t.pos)
+				}
+			}
+		}
+	}
+}
